@@ -77,10 +77,32 @@ struct SendSpec {
 }
 
 #[derive(Deserialize, Default, Clone)]
+struct Lift {
+    from: String,
+    #[serde(default)]
+    self_types: BTreeMap<String, String>,
+    /// N22 (outline mode): only the statements AFTER the first top-level statement matching this regex are
+    /// moved, into a free function `fn NAME<generics>(params) -> <the method's return type>`; the method keeps
+    /// its head and ends in a call `NAME(args)`. params: [name, type, argument expression at the call site].
+    #[serde(default)]
+    after: Option<String>,
+    #[serde(default)]
+    params: Vec<(String, String, String)>,
+    #[serde(default)]
+    generics: String,
+}
+
+#[derive(Deserialize, Default, Clone)]
 struct ItemSpec {
     /// "fn NAME" | "impl TYPE::NAME" | "impl TRAIT for TYPE::NAME" | "impl TRAIT for TYPE" |
     /// "struct NAME" | "enum NAME" | "const NAME" | "type NAME"
     path: String,
+    /// N21: the item is the inherent copy of a trait-impl method (Verus has no `async fn` in traits): before
+    /// anything else the body of `lift.from` ("impl TRAIT for TYPE::m") is moved into a new inherent method
+    /// named as in `path` (same generics, same signature, `_` parameters named, `Self::X` spelled out) and
+    /// the trait method becomes a one-line delegation to it.
+    #[serde(default)]
+    lift: Option<Lift>,
     #[serde(default)]
     ret: Option<String>,
     #[serde(default)]
@@ -1230,6 +1252,12 @@ fn sig_edits(text: &str, fp: &FnParts, on: &dyn Fn(&str) -> bool, arg_names: &BT
                     lets.push_str(&format!(" let {} = {};", &text[s..e], name));
                     edits.push(Edit { start: s, end: e, text: name, rule: "N4" });
                 }
+                // N4b: a `_` parameter gets a name (verus! wants identifiers)
+                if matches!(&*pt.pat, syn::Pat::Wild(_)) {
+                    let (s, e) = br(pt.pat.span());
+                    let name = arg_names.get(&k.to_string()).cloned().unwrap_or_else(|| format!("_pv_arg{}", k));
+                    edits.push(Edit { start: s, end: e, text: name, rule: "N4" });
+                }
             }
         }
         if !lets.is_empty() {
@@ -1325,6 +1353,105 @@ fn main() {
     let mut rep = Report::default();
     let orig = std::fs::read_to_string(&job.src).expect("src");
     let mut text = orig.clone();
+
+    // ---- pass -1 (N21): lift trait-impl methods to inherent methods
+    for it in &job.items {
+        let Some(l) = &it.lift else { continue };
+        let file = match syn::parse_file(&text) {
+            Ok(f) => f,
+            Err(e) => fail(&job.report, rep, format!("parse error in {}: {}", job.src, e)),
+        };
+        if find_item(&file, &it.path).is_some() {
+            continue; // already lifted (or the repository has such a method itself)
+        }
+        let Some(Found::Method(imp, m)) = find_item(&file, &l.from) else {
+            fail(&job.report, rep, format!("lost anchor: item `{}` not found in {}", l.from, job.src));
+        };
+        if let Some(after) = &l.after {
+            let rx = Regex::new(after).unwrap_or_else(|er| fail(&job.report, Report::default(), format!("bad lift regex {}: {}", after, er)));
+            let name = it.path.trim().strip_prefix("fn ").unwrap_or("pv_outlined").trim().to_string();
+            let stmts = &m.block.stmts;
+            let Some(idx) = stmts.iter().position(|st| { let (a, b) = br(st.span()); rx.is_match(&text[a..b]) }) else {
+                fail(&job.report, rep, format!("lost anchor: no statement of `{}` matches {:?}", l.from, after));
+            };
+            if idx + 1 >= stmts.len() {
+                fail(&job.report, rep, format!("lost anchor: nothing follows the statement matching {:?} in `{}`", after, l.from));
+            }
+            let (ts, _) = br(stmts[idx + 1].span());
+            let (_, te) = br(stmts[stmts.len() - 1].span());
+            let mut tail = text[ts..te].to_string();
+            let mut ret = match &m.sig.output { syn::ReturnType::Default => String::new(), syn::ReturnType::Type(_, t) => { let (a, b) = br(t.span()); format!(" -> {}", &text[a..b]) } };
+            for (k, v) in &l.self_types {
+                tail = tail.replace(k.as_str(), v.as_str());
+                ret = ret.replace(k.as_str(), v.as_str());
+            }
+            let is_async = m.sig.asyncness.is_some();
+            let decl: Vec<String> = l.params.iter().map(|(n, t, _)| format!("{}: {}", n, t)).collect();
+            let args: Vec<String> = l.params.iter().map(|(_, _, a)| a.clone()).collect();
+            let func = format!("\n\n// N22: the statements of `{}` after `{}` (verbatim), outlined\n#[allow(clippy::too_many_arguments)]\npub(crate) {}fn {}{}({}){} {{\n        {}\n}}\n",
+                l.from, after, if is_async { "async " } else { "" }, name, l.generics, decl.join(", "), ret, tail);
+            let call = format!("{}({}){}", name, args.join(", "), if is_async { ".await" } else { "" });
+            rep.rules.push(RuleApp { rule: "N22 statement range outlined into a free function".to_string(), item: l.from.clone(), line: line_of(&text, ts), old: text[ts..te].to_string(), new: call.clone() });
+            text.push_str(&func);
+            text.replace_range(ts..te, &call);
+            continue;
+        }
+        let new_name = it.path.rsplit("::").next().unwrap_or("pv_lifted").trim().to_string();
+        let (ss, se) = br(m.sig.span());
+        let (bs, be) = br(m.block.span());
+        let (_, ie) = br(imp.span());
+        // signature text with `_` parameters named and the method renamed
+        let mut sig_edits_v: Vec<(usize, usize, String)> = vec![];
+        let (ns, ne) = br(m.sig.ident.span());
+        sig_edits_v.push((ns, ne, new_name.clone()));
+        let mut args: Vec<String> = vec![];
+        for (k, a) in m.sig.inputs.iter().enumerate() {
+            match a {
+                syn::FnArg::Receiver(_) => args.push("self".to_string()),
+                syn::FnArg::Typed(pt) => match &*pt.pat {
+                    syn::Pat::Ident(pi) => args.push(pi.ident.to_string()),
+                    syn::Pat::Wild(w) => {
+                        let nm = format!("_pv_arg{}", k);
+                        let (ws, we) = br(w.span());
+                        sig_edits_v.push((ws, we, nm.clone()));
+                        args.push(nm);
+                    }
+                    _ => fail(&job.report, rep, format!("N21: parameter {} of `{}` is a pattern", k, l.from)),
+                },
+            }
+        }
+        sig_edits_v.sort_by(|a, b| b.0.cmp(&a.0));
+        let mut new_sig = text[ss..se].to_string();
+        let mut trait_sig = text[ss..se].to_string();
+        for (a, b, t) in &sig_edits_v {
+            new_sig.replace_range(a - ss..b - ss, t);
+            if t != &new_name {
+                trait_sig.replace_range(a - ss..b - ss, t);
+            }
+        }
+        let mut body = text[bs..be].to_string();
+        for (k, v) in &l.self_types {
+            new_sig = new_sig.replace(k.as_str(), v.as_str());
+            body = body.replace(k.as_str(), v.as_str());
+        }
+        let g = &imp.generics;
+        let (impl_g, _ty_g, where_c) = g.split_for_impl();
+        let self_ty = &imp.self_ty;
+        let head = format!("impl{} {} {}", quote::quote!(#impl_g), quote::quote!(#self_ty), quote::quote!(#where_c));
+        let is_async = m.sig.asyncness.is_some();
+        let has_self = m.sig.receiver().is_some();
+        let call = if has_self {
+            format!("{{ Self::{}({}){} }}", new_name, args.join(", "), if is_async { ".await" } else { "" })
+        } else {
+            format!("{{ Self::{}({}){} }}", new_name, args.join(", "), if is_async { ".await" } else { "" })
+        };
+        let inherent = format!("\n\n// N21: body of `{}` (verbatim), as an inherent method\n{} {{\n    #[allow(clippy::too_many_arguments)]\n    pub(crate) {} {}\n}}\n", l.from, head, new_sig, body);
+        rep.rules.push(RuleApp { rule: "N21 trait-impl method -> inherent method + one-line delegation".to_string(), item: l.from.clone(), line: line_of(&text, ss), old: text[ss..se].to_string(), new: format!("{} {}", trait_sig, call) });
+        // apply back to front: insertion after the impl, body, signature
+        text.insert_str(ie, &inherent);
+        text.replace_range(bs..be, &call);
+        text.replace_range(ss..se, &trait_sig);
+    }
 
     // ---- record original extents
     {
